@@ -49,8 +49,82 @@ func compBase(b byte) byte {
 		return 'G'
 	case 'G':
 		return 'C'
+	case 'R':
+		return 'Y'
+	case 'Y':
+		return 'R'
+	case 'K':
+		return 'M'
+	case 'M':
+		return 'K'
+	case 'B':
+		return 'V'
+	case 'V':
+		return 'B'
+	case 'D':
+		return 'H'
+	case 'H':
+		return 'D'
 	}
 	return b
+}
+
+var iupacBases = map[byte]string{'A': "A", 'C': "C", 'G': "G", 'T': "T", 'R': "AG", 'Y': "CT", 'S': "CG", 'W': "AT", 'K': "GT", 'M': "AC",
+	'B': "CGT", 'D': "AGT", 'H': "ACT", 'V': "ACG", 'N': "ACGT"}
+
+// codonAA: the residue every expansion of an IUPAC codon gives under NCBI table 1, or '?' when they differ
+func codonAA(c [3]byte) byte {
+	aa := byte(0)
+	for _, x := range []byte(iupacBases[c[0]]) {
+		for _, y := range []byte(iupacBases[c[1]]) {
+			for _, z := range []byte(iupacBases[c[2]]) {
+				a := stdTCAG[tcagIdx(x)*16+tcagIdx(y)*4+tcagIdx(z)]
+				if aa != 0 && a != aa {
+					return '?'
+				}
+				aa = a
+			}
+		}
+	}
+	if aa == 0 {
+		return '?'
+	}
+	return aa
+}
+
+// ambiguateReference replaces some reference bases by IUPAC codes that contain them, keeping every gene's translation
+// (every codon must still translate, to the same residue): a reference with ambiguity codes inside coding features
+func ambiguateReference(r *RNG, genome string, genes []gene) string {
+	g := []byte(genome)
+	want := make([]string, len(genes))
+	for i, x := range genes {
+		want[i] = x.translation(genome)
+	}
+	for k := 0; k < len(g)/3+1; k++ {
+		p := r.Intn(len(g))
+		old := g[p]
+		var opts []byte
+		for code, set := range iupacBases {
+			if len(set) > 1 && strings.IndexByte(set, old) >= 0 {
+				opts = append(opts, code)
+			}
+		}
+		if len(opts) == 0 {
+			continue
+		}
+		sort.Slice(opts, func(i, j int) bool { return opts[i] < opts[j] })
+		g[p] = opts[r.Intn(len(opts))]
+		if compBase(g[p]) == g[p] && r.Chance(3, 4) { // prefer the codes whose complement is another code (R/Y, K/M, B/V, D/H)
+			g[p] = opts[r.Intn(len(opts))]
+		}
+		for i, x := range genes {
+			if x.translation(string(g)) != want[i] {
+				g[p] = old
+				break
+			}
+		}
+	}
+	return string(g)
 }
 
 // codingPositions in coding order (before codon_start is applied)
@@ -81,7 +155,7 @@ func (g gene) translation(genome string) string {
 				c[k] = compBase(c[k])
 			}
 		}
-		aa = append(aa, stdTCAG[tcagIdx(c[0])*16+tcagIdx(c[1])*4+tcagIdx(c[2])])
+		aa = append(aa, codonAA(c))
 	}
 	return string(aa)
 }
@@ -242,7 +316,11 @@ func renderGenbank(genes []gene, genome string) (text string, proto string) {
 		b.WriteString("\n")
 	}
 	b.WriteString("//\n")
-	return b.String(), strings.Join(pf, ";")
+	txt := b.String()
+	if len(genome)%5 == 1 { // one file in five comes from a Windows machine
+		txt = strings.ReplaceAll(txt, "\n", "\r\n")
+	}
+	return txt, strings.Join(pf, ";")
 }
 
 type gffRow struct {
@@ -328,7 +406,11 @@ func renderGFF(rows []gffRow, genome string, withFasta, withRegion bool, refName
 			b.WriteString(genome[i:e] + "\n")
 		}
 	}
-	return b.String(), strings.Join(pf, ";")
+	txt := b.String()
+	if (len(genome)+len(rows))%5 == 2 { // one file in five comes from a Windows machine
+		txt = strings.ReplaceAll(txt, "\n", "\r\n")
+	}
+	return txt, strings.Join(pf, ";")
 }
 
 // ---------------------------------------------------------------------------------------------
@@ -480,6 +562,7 @@ type varOpts struct {
 	smallMutPool bool
 	sameName     bool // now and then two features of one name with another feature between them, all over the same codons
 	sameNameLoci bool // now and then a second feature of the same name at another locus holding a copy of the first one's bases
+	ambRef       bool // now and then IUPAC codes in the reference, inside coding features too (translations unchanged)
 }
 
 func genVarCase(r *RNG, id string, o varOpts) *Case {
@@ -540,6 +623,10 @@ func genVarCase(r *RNG, id string, o varOpts) *Case {
 			twin = [3]int{a, st, ln}
 			c.Tag("same-name-two-loci")
 		}
+	}
+	if o.ambRef && r.Chance(1, 3) {
+		genome = ambiguateReference(r, genome, genes)
+		c.Tag("ambiguous-reference")
 	}
 	format := "gb"
 	if r.Intn(o.fmtWeights[0]+o.fmtWeights[1]) >= o.fmtWeights[0] {
